@@ -60,7 +60,7 @@ def shares(result_arrays, inputs):
 def run(chk):
     chk.prove()
     r = gen.rng(chk.seed, "C19")
-    rounds = 6 if chk.tier == "quick" else 40
+    rounds = 6 if chk.tier == "quick" else 200
 
     def guarded(name, inputs, call, results=lambda out: [], twice=True, ctx=None):
         """inputs: dict name -> caller-owned object.  Calls once (and again, reusing the same inputs): inputs bit-identical,
